@@ -10,4 +10,15 @@ var targets = []target{
 	{Kind: "cond", File: "pkg/local_object_storage/shard/gc.go", Recv: "Shard", Name: "setEpochEventHandler", Lean: "unpaidGraceExpired",
 		Mention: "maxUnpaidEpochDelay", Params: []string{"ne.epoch", "unpaidSince"},
 		Env: map[string]ityp{"ne.epoch": tU64, "unpaidSince": tI64}},
+	// C23: buffer length of EC range copying and the out-of-range guards of the assembly paths
+	{Kind: "func", File: "pkg/services/object/get/ec.go", Name: "calcECRangeBufferLen", Lean: "calcECRangeBufferLen"},
+	{Kind: "cond", File: "pkg/services/object/get/assembly_v2.go", Recv: "execCtx", Name: "processV2Link", Lean: "v2LinkRangeGuard",
+		Mention: "seekTo", Params: []string{"seekOff", "seekTo", "parSize"},
+		Env: map[string]ityp{"seekOff": tU64, "seekTo": tU64, "parSize": tU64}},
+	{Kind: "cond", File: "pkg/services/object/get/assemble.go", Recv: "execCtx", Name: "initFromChild", Lean: "v1RangeGuard",
+		Mention: "seekTo", Params: []string{"seekOff", "seekTo", "parSize"},
+		Env: map[string]ityp{"seekOff": tU64, "seekTo": tU64, "parSize": tU64}},
+	{Kind: "cond", File: "pkg/services/object/get/ec.go", Recv: "Service", Name: "copyECObjectRangeByParts", Lean: "ecRangeGuard",
+		Mention: "pldLen", Mention2: "ln", Params: []string{"off", "ln", "pldLen"},
+		Env: map[string]ityp{"off": tU64, "ln": tU64, "pldLen": tU64}},
 }
